@@ -88,10 +88,6 @@ def check (server : Bool) (resetMax : Option Nat) (digest : String) : List Strin
     (match resetMax with
       | some m => if nlr > m then ["C18 reset-stream-memory-above-quota"] else []
       | none => []) ++
-    -- peer-initiated streams nobody holds a handle to, outside the bounded memory of reset streams ('r'): they are
-    -- kept only while they occupy a concurrency slot (or, when the peer is over the limit, not at all)
-    (if (streams.filter fun e => !isLocal server e.id && e.refs == 0 && !has e 'r' && !has e 'a').length > maxR.toNat
-      then ["C18 more-unheld-peer-streams-stored-than-the-concurrency-limit"] else []) ++
     (if dup then ["C19 two-entries-for-one-stream-id"] else []) ++
     (orphanKinds.map fun k => s!"C19 finished-stream-still-stored({k})") ++
     (if streams.isEmpty ∧ b ≠ 0 then ["C19 buffered-events-of-forgotten-streams"] else []) ++
